@@ -85,5 +85,5 @@ SPEC = dict(
                'indices are unbounded, so sampling with class coverage is the reachable level; evidence lists how often each (function, path) ran.',
     level_note='trusted: the array model and the id model of the large case class in harness/h_seq.c (semantics taken from vec.h/buf.h documentation); '
                'libc qsort for ranking the two sides in the permutation check of sort; default allocator (malloc/realloc) under ASan',
-    technique='seeded operation histories against a lock-step array model, ASan/UBSan red zones on exact-size blocks',
+    technique='seeded operation histories (small, and large through 2^16..2^20 elements) against lock-step models, every accessor / call / loop macro form judged, ledger allocator with a capacity-vs-granted-bytes invariant and CPU-time watchdog for counts near SIZE_MAX, ASan/UBSan/LeakSanitizer on exact-size blocks',
 )
